@@ -1,17 +1,28 @@
 """C09 — results independent of cores, partitioning and completion order.
 
-Tie: (a) the job grid navis builds (recorded through a controlled executor) is compared with the
-Lean model `jobs` (array_split chunks + job-local indices); (b) the matrix navis assembles from the
-recorded per-job blocks, delivered in a seeded permutation, is compared with the Lean `assembleBlocks`;
-(c) `find_optimal_partition` / `find_batch_partition` vs the Lean functions; (d) NeuronProcessor /
-map_neuronlist vs the Lean `process`.  Oracle: forced partition × permuted completion == serial run."""
-import itertools, warnings
+Tie (every run):
+ (a) job grid navis builds (recorded through a controlled executor) vs the Lean model `jobs`; the same jobs vs the
+     *interpreted source facts* (`Gen/NblastJobs.lean` through `c09.prog`): which neurons each blaster holds, whose
+     self hits, `q_idx` / `t_idx`, destination rows / columns — for nblast, nblast_allbyall, both phases of
+     nblast_smart and synblast;
+ (b) the matrix navis assembles from the recorded per-job blocks, delivered in a seeded permutation, vs the Lean
+     `assembleBlocks` (incl. `scores='both'` through `bothJob`); smart NBLAST: `this.pairs`, `this.mask` vs `Smart.pairs`,
+     `Smart.jobMask` (and vs the extracted expressions), final matrix vs `Smart.refineBlocks`;
+ (c) `find_optimal_partition` / `find_batch_partition` / the partition choice of every front end for n_cores 1..16 vs Lean;
+ (d) `NeuronProcessor.__call__` (positional + keyword arguments of every kind, exclude lists, per-neuron functions,
+     failures, result packing, ordered imap with chunk sizes) and `map_neuronlist` vs the Lean `processW`, `finish`,
+     `mapNeuronlist`.
+Oracle: forced partition × permuted completion == serial run (values, labels, mask); mapped results in list order with
+matched arguments; parallel == serial."""
+import itertools, warnings, random as _random
 import numpy as np
 import pandas as pd
 
 warnings.filterwarnings('ignore')
 import navis
 from navis.nbl import nblast_funcs as NF
+from navis.nbl import synblast_funcs as SF
+from navis.core import core_utils as CU
 from concurrent.futures import Future
 
 navis.config.pbar_hide = True
@@ -19,9 +30,9 @@ navis.set_loggers('ERROR')
 
 
 # ---------------------------------------------------------------------------------------------
-def make_dps(rng, n, npts=(12, 30), id0=None):
+def make_dps(rng, n, npts=(12, 30), id0=None, ids=None):
     out = []
-    ids = rng.sample(range(1, 10 ** 6), n)
+    ids = ids or rng.sample(range(1, 10 ** 6), n)
     for i in range(n):
         m = rng.randint(*npts)
         pts = np.cumsum(np.array([[rng.uniform(-1, 1) for _ in range(3)] for _ in range(m)]), axis=0) * 2
@@ -59,20 +70,48 @@ class FakePool:
         return f
 
 
-class Forced:
-    """Context: force the partition to (rows, cols) and the completion order to a permutation."""
+class DummyTqdm:
+    """Stand-in for config.tqdm when progress=True is exercised (no output)."""
 
-    def __init__(self, rows, cols, perm_rng):
-        self.rows, self.cols, self.rng = rows, cols, perm_rng
+    def __init__(self, it=None, *a, **k):
+        self.it = it
+
+    def __iter__(self):
+        return iter(self.it)
+
+    def __enter__(self):
+        return self
+
+    def __exit__(self, *a):
+        return False
+
+    def update(self, *a):
+        pass
+
+    def close(self):
+        pass
+
+
+class Forced:
+    """Context: controlled executor + permuted `as_completed` in module `mod`; optionally force the partition."""
+
+    def __init__(self, rows, cols, perm_rng, mod=NF, force=True, quiet_progress=False):
+        self.rows, self.cols, self.rng, self.mod, self.force, self.quiet = rows, cols, perm_rng, mod, force, quiet_progress
         self.order = None
 
     def __enter__(self):
-        self.saved = (NF.find_batch_partition, NF.find_optimal_partition, NF.ProcessPoolExecutor, NF.as_completed)
-        NF.find_batch_partition = lambda *a, **k: (self.rows, self.cols)
-        NF.find_optimal_partition = lambda *a, **k: (self.rows, self.cols)
-        NF.ProcessPoolExecutor = FakePool
+        m = self.mod
+        self.saved = (m.find_batch_partition, m.find_optimal_partition, m.ProcessPoolExecutor, m.as_completed)
+        if self.force:
+            m.find_batch_partition = lambda *a, **k: (self.rows, self.cols)
+            m.find_optimal_partition = lambda *a, **k: (self.rows, self.cols)
+        m.ProcessPoolExecutor = FakePool
         FakePool.record = []
         self.records = FakePool.record
+        if self.quiet:
+            self.saved_tqdm = (navis.config.tqdm, navis.config.tqdm_classic)
+            navis.config.tqdm = DummyTqdm
+            navis.config.tqdm_classic = DummyTqdm
 
         def fake_as_completed(futs, *a, **k):
             fl = list(futs)
@@ -81,11 +120,14 @@ class Forced:
             self.order = (self.order or []) + [idx]
             for i in idx:
                 yield fl[i]
-        NF.as_completed = fake_as_completed
+        m.as_completed = fake_as_completed
         return self
 
     def __exit__(self, *a):
-        NF.find_batch_partition, NF.find_optimal_partition, NF.ProcessPoolExecutor, NF.as_completed = self.saved
+        m = self.mod
+        m.find_batch_partition, m.find_optimal_partition, m.ProcessPoolExecutor, m.as_completed = self.saved
+        if self.quiet:
+            navis.config.tqdm, navis.config.tqdm_classic = self.saved_tqdm
         FakePool.record = None
         return False
 
@@ -95,7 +137,7 @@ def tok(v):
 
 
 def mat_tokens(df):
-    return '/'.join(','.join(tok(v) for v in row) for row in np.asarray(df.values))
+    return '/'.join(','.join(tok(v) for v in row) for row in np.asarray(getattr(df, 'values', df)))
 
 
 def frames_equal(a, b):
@@ -105,34 +147,74 @@ def frames_equal(a, b):
     return x.shape == y.shape and bool(np.array_equal(x, y, equal_nan=True))
 
 
+def csv(xs):
+    return ','.join(str(int(x)) for x in xs)
+
+
+# ---------------------------------------------------------------------------------------------
+# interpreted source facts vs what the blasters really hold
+# ---------------------------------------------------------------------------------------------
+def check_prog(ctx, case, prog, nb, kwargs, lists, selfhits, enum=None):
+    """`lists`: name -> NeuronList (as named in the source); `selfhits`: name -> list of floats computed over that list.
+    Compares the Lean interpretation of the extracted job program with the recorded blaster `nb`."""
+    qi, ti = list(map(int, nb.queries_ix)), list(map(int, nb.targets_ix))
+    ans = ctx.ask(f"c09.prog {prog};{csv(qi)};{csv(ti)};{csv(enum or [])}")
+    if ans == 'BAD-OP':
+        ctx.corr('driver: BAD-OP', 'answer', f'c09.prog {prog}', case)
+        return
+    ents, shs, sq, st, dr, dc, both, meta = ans.split(';')
+    # neurons held by the blaster, in order
+    want_ids = []
+    for e in filter(None, ents.split(',')):
+        name, i = e.split(':')
+        want_ids.append(lists[name][int(i)].id)
+    ctx.corr(list(nb.ids), want_ids, f'{prog}: neurons appended to the job blaster (source facts vs runtime)', case)
+    if shs.replace('-', '').replace(',', ''):
+        want_sh = []
+        for e in shs.split(','):
+            name, i = e.split(':')
+            want_sh.append(float(selfhits[name][int(i)]))
+        got = [float(x) for x in nb.self_hits]
+        ctx.corr(got, want_sh, f'{prog}: self hits held by the job blaster (source facts vs runtime)', case)
+    if 'q_idx' in kwargs:
+        ctx.corr(csv(kwargs['q_idx']) + ';' + csv(kwargs['t_idx']), sq + ';' + st,
+                 f'{prog}: submitted q_idx / t_idx (source facts vs runtime)', case)
+    ctx.corr(csv(qi) + ';' + csv(ti), dr + ';' + dc, f'{prog}: destination rows / columns (source facts vs runtime)', case)
+    return meta
+
+
+def self_hits(nl, **kw):
+    nb = NF.NBlaster(**kw)
+    return [nb.calc_self_hit(n) for n in nl]
+
+
 # ---------------------------------------------------------------------------------------------
 def case_nblast(ctx, case, dps=None):
     """case: dict(fn, nq, nt, rows, cols, scores, seed)."""
-    import random
-    r = random.Random(case['seed'])
+    r = _random.Random(case['seed'])
     fn, nq, nt, rows, cols, scores = case['fn'], case['nq'], case['nt'], case['rows'], case['cols'], case['scores']
     q = make_dps(r, nq)
-    t = q if fn == 'allbyall' else make_dps(r, nt)
+    self_target = case.get('self_target', False)
+    t = q if (fn == 'allbyall' or self_target) else make_dps(r, nt)
     kw = dict(progress=False)
-    if 'use_alpha' in case:
-        kw['use_alpha'] = case['use_alpha']
-    if 'normalized' in case:
-        kw['normalized'] = case['normalized']
+    for k in ('use_alpha', 'normalized'):
+        if k in case:
+            kw[k] = case[k]
 
     def call(n_cores):
         if fn == 'nblast':
-            return navis.nblast(q, t, scores=scores, n_cores=n_cores, **kw)
+            return navis.nblast(q, None if self_target else t, scores=scores, n_cores=n_cores, **kw)
         if fn == 'allbyall':
             return navis.nblast_allbyall(q, n_cores=n_cores, **kw)
         if fn == 'smart':
-            return navis.nblast_smart(q, t, scores=scores, n_cores=n_cores, t=case.get('t', 50),
-                                      criterion=case.get('criterion', 'percentile'), **kw)
+            return navis.nblast_smart(q, None if self_target else t, scores=scores, n_cores=n_cores, t=case.get('t', 50),
+                                      criterion=case.get('criterion', 'percentile'), return_mask=True, **kw)
     try:
         serial = call(1)
     except Exception as e:
-        ctx.count('serial_error', type(e).__name__)
+        ctx.count('serial_error', f"{fn}/{case.get('criterion', '')}/{type(e).__name__}")
         return
-    with Forced(rows, cols, random.Random(case['seed'] + 1)) as F:
+    with Forced(rows, cols, _random.Random(case['seed'] + 1)) as F:
         try:
             par = call(case.get('n_cores', 4))
             err = None
@@ -140,53 +222,211 @@ def case_nblast(ctx, case, dps=None):
             par, err = None, e
     ctx.count('fn', fn); ctx.count('grid', f'{rows}x{cols}'); ctx.count('scores', scores)
     if err is not None:
-        sig = None
-        if scores == 'both' and rows * cols > 1:
-            sig = 'nblast/scores=both/multi-job'
         ctx.oracle(False, f'{fn}(scores={scores}) with partition {rows}x{cols} raises {type(err).__name__}: {str(err)[:120]} '
-                          f'while the serial run succeeds', case, signature=sig)
+                          f'while the serial run succeeds', case)
         return
+    mask_s = mask_p = None
+    if fn == 'smart':
+        (serial, mask_s), (par, mask_p) = serial, par
+        ctx.oracle(frames_equal(mask_s.astype(float), mask_p.astype(float)),
+                   f'nblast_smart: selection mask differs between serial run and partition {rows}x{cols}', case)
     # ---- property oracle: same matrix, labels in input order
     ok = frames_equal(serial, par)
     ctx.oracle(ok, f'{fn}(scores={scores}) differs between serial run and partition {rows}x{cols} '
                    f'with completion order {F.order}', case)
-    exp_idx = list(q.id)
     if scores == 'both' and fn == 'nblast':
-        pass
-    else:
+        exp_idx = [(i, s) for i in q.id for s in ('forward', 'reverse')]
         ctx.oracle(list(par.index) == exp_idx and list(par.columns) == list(t.id),
+                   'nblast(scores=both): row/column labels do not follow input order (forward/reverse interleaved)', case)
+        if not self_target:
+            fwd = navis.nblast(q, t, scores='forward', n_cores=1, **kw)
+            rev = navis.nblast(t, q, scores='forward', n_cores=1, **kw)
+            v = np.asarray(par.values, dtype=float)
+            ctx.oracle(np.array_equal(v[0::2], fwd.values) and np.array_equal(v[1::2], rev.values.T),
+                       'nblast(scores=both): rows 2r / 2r+1 are not the forward / reverse scores of query r', case)
+    else:
+        ctx.oracle(list(par.index) == list(q.id) and list(par.columns) == list(t.id),
                    f'{fn}: row/column labels do not follow input order', case)
-    # ---- correspondence with the Lean model (only when jobs were actually submitted)
     recs = F.records
-    if fn in ('nblast', 'allbyall') and rows * cols > 1 and recs and scores != 'both':
+    if not (rows * cols > 1 and recs):
+        return
+    nqq, ntt = len(q), len(t)
+    # ---- nblast / allbyall: grid, source facts, assembly
+    if fn in ('nblast', 'allbyall'):
+        bkw = {k: kw[k] for k in ('use_alpha', 'normalized') if k in kw}
+        qsh = self_hits(q, **bkw)
+        tsh = qsh if t is q else self_hits(t, **bkw)
         jobs_impl = []
         for (f, nb, kwargs, res) in recs:
             qi = list(map(int, nb.queries_ix)); ti = list(map(int, nb.targets_ix))
             lq = list(map(int, kwargs['q_idx'])); lt = list(map(int, kwargs['t_idx']))
-            jobs_impl.append((qi, ti, lq, lt, nb))
-        nqq, ntt = len(q), len(t)
+            jobs_impl.append((qi, ti, lq, lt, nb, kwargs))
         model = ctx.ask(f'c09.jobs {nqq} {ntt} {rows} {cols}')
         if fn == 'nblast':
             impl = '|'.join(';'.join(','.join(map(str, x)) for x in j[:4]) for j in jobs_impl)
             ctx.corr(impl, model, 'job grid (array_split chunks, job-local query/target indices)', case)
+            for (qi, ti, lq, lt, nb, kwargs) in jobs_impl:
+                check_prog(ctx, case, 'nblast', nb, kwargs, {'query_dps': q, 'target_dps': t},
+                           {'query_dps': qsh, 'target_dps': tsh})
         else:
-            # all-by-all: chunks must match; local indices are checked against the enumeration navis used
             impl = '|'.join(';'.join(','.join(map(str, x)) for x in j[:2]) for j in jobs_impl)
             mod = '|'.join(';'.join(s.split(';')[:2]) for s in model.split('|'))
             ctx.corr(impl, mod, 'all-by-all job grid (array_split chunks)', case)
             idpos = {int(n.id): i for i, n in enumerate(q)}
-            for (qi, ti, lq, lt, nb) in jobs_impl:
+            for (qi, ti, lq, lt, nb, kwargs) in jobs_impl:
                 enum = [idpos[int(i)] for i in nb.ids]
-                m = ctx.ask(f"c09.allmap {','.join(map(str, enum))};{','.join(map(str, qi))};{','.join(map(str, ti))}")
-                ctx.corr(f"{','.join(map(str, lq))};{','.join(map(str, lt))}", m, 'all-by-all local index remap (ixmap)', case)
-        # assembly in the observed completion order
+                m = ctx.ask(f"c09.allmap {csv(enum)};{csv(qi)};{csv(ti)}")
+                ctx.corr(f"{csv(lq)};{csv(lt)}", m, 'all-by-all local index remap (ixmap)', case)
+                check_prog(ctx, case, 'allbyall', nb, kwargs, {'dps': q}, {'dps': qsh}, enum=enum)
         order = F.order[-1]
         blocks = []
         for i in order:
             (f, nb, kwargs, res) = recs[i]
-            blocks.append(f"{','.join(map(str, map(int, nb.queries_ix)))};{','.join(map(str, map(int, nb.targets_ix)))};{mat_tokens(res)}")
-        model = ctx.ask(f'c09.assemble {nqq} {ntt} | ' + ' | '.join(blocks))
-        ctx.corr(mat_tokens(par), model, 'assembled score matrix vs Lean assembleBlocks on navis\' own job blocks', case)
+            blocks.append(f"{csv(nb.queries_ix)};{csv(nb.targets_ix)};{mat_tokens(res)}")
+        cmd = 'assembleboth' if scores == 'both' else 'assemble'
+        model = ctx.ask(f'c09.{cmd} {nqq} {ntt} | ' + ' | '.join(blocks))
+        ctx.defn(mat_tokens(par), model, 'assembled score matrix vs Lean placement of navis\' own job blocks '
+                 f'in completion order {order}', case)
+    # ---- smart: both phases
+    if fn == 'smart':
+        pre = [x for x in recs if 'pairs' not in x[2]]
+        full = [x for x in recs if 'pairs' in x[2]]
+        ctx.count('smart_jobs', f'{len(pre)}+{len(full)}')
+        if len(F.order) != 2 or len(pre) != rows * cols or len(full) != rows * cols:
+            ctx.corr(f'{len(pre)}+{len(full)} jobs, {len(F.order)} collections', f'{rows * cols}+{rows * cols} jobs, 2 collections',
+                     'nblast_smart: number of submitted jobs / collection loops', case)
+            return
+        qs, ts = q.downsample(10, inplace=False), (q if t is q else t).downsample(10, inplace=False)
+        if t is q:
+            ts = qs
+        bkw = {k: kw[k] for k in ('use_alpha', 'normalized') if k in kw}
+        qsh_s = self_hits(qs, **bkw); tsh_s = qsh_s if t is q else self_hits(ts, **bkw)
+        model = ctx.ask(f'c09.jobs {nqq} {ntt} {rows} {cols}')
+        impl = '|'.join(';'.join([csv(nb.queries_ix), csv(nb.targets_ix), csv(kwargs['q_idx']), csv(kwargs['t_idx'])])
+                        for (f, nb, kwargs, res) in pre)
+        ctx.corr(impl, model, 'nblast_smart pre-phase job grid', case)
+        for (f, nb, kwargs, res) in pre:
+            check_prog(ctx, case, 'smartPre', nb, kwargs, {'query_dps_simp': qs, 'target_dps_simp': ts},
+                       {'query_dps_simp': qsh_s, 'target_dps_simp': tsh_s})
+        blocks = [f"{csv(pre[i][1].queries_ix)};{csv(pre[i][1].targets_ix)};{mat_tokens(pre[i][3])}" for i in F.order[0]]
+        scr_tok = ctx.ask(f'c09.assemble {nqq} {ntt} | ' + ' | '.join(blocks))
+        if t is q and scores == 'mean' and 'EMPTY' not in scr_tok:
+            a = np.array([[float(v) for v in row.split(',')] for row in scr_tok.split('/')])
+            scr_tok = mat_tokens((a + a.T) / 2)
+        mtok = '/'.join(''.join('1' if v else '0' for v in row) for row in np.asarray(mask_p.values, dtype=bool))
+        # per job: pairs and job mask, model + extracted expressions
+        qsh = self_hits(q, **bkw); tsh = qsh if t is q else self_hits(t, **bkw)
+        for (f, nb, kwargs, res) in full:
+            qi = sorted(set(np.where(nb.mask.any(axis=1))[0].tolist()))
+            # the job's chunks: recover from the blaster's ids
+            idq = {n.id: i for i, n in enumerate(q)}; idt = {n.id: i for i, n in enumerate(t)}
+            npairs = np.asarray(kwargs['pairs'])
+            # the blaster holds |qix| queries then |tix| targets
+            k = None
+            for (qq, tt) in [tuple(s.split(';')[:2]) for s in model.split('|')]:
+                qq = [int(x) for x in qq.split(',')]; tt = [int(x) for x in tt.split(',')]
+                if [idq.get(i) for i in nb.ids[:len(qq)]] == qq and [idt.get(i) for i in nb.ids[len(qq):]] == tt and len(nb.ids) == len(qq) + len(tt):
+                    k = (qq, tt)
+            if k is None:
+                ctx.corr(list(nb.ids), 'queries of a row chunk followed by targets of a column chunk',
+                         'nblast_smart full phase: neurons held by the job blaster', case)
+                continue
+            qq, tt = k
+            ans = ctx.ask(f'c09.smartjob {nqq} {ntt} | {mtok} | {csv(qq)};{csv(tt)}')
+            p_model, p_src, c_model, c_src = ans.split(';')
+            p_impl = ','.join(f'{int(a)}:{int(b)}' for a, b in npairs)
+            c_impl = ','.join(f'{int(a)}:{int(b)}' for a, b in zip(*np.where(nb.mask)))
+            ctx.corr(p_impl, p_model, 'nblast_smart: this.pairs vs Smart.pairs', case)
+            ctx.corr(p_impl, p_src, 'nblast_smart: this.pairs vs extracted source expressions', case)
+            ctx.corr(c_impl, c_model, 'nblast_smart: cells of this.mask vs Smart.jobMask', case)
+            ctx.corr(c_impl, c_src, 'nblast_smart: cells of this.mask vs extracted slice expressions', case)
+            ents = ctx.ask(f'c09.smartprog {csv(qq)};{csv(tt)}')
+            names, shs = ents.split(';')
+            L = {'query_dps': q, 'target_dps': t}; S = {'query_dps': qsh, 'target_dps': tsh}
+            ctx.corr(list(nb.ids), [L[e.split(':')[0]][int(e.split(':')[1])].id for e in names.split(',')],
+                     'nblast_smart full phase: neurons appended (source facts vs runtime)', case)
+            ctx.corr([float(x) for x in nb.self_hits], [float(S[e.split(':')[0]][int(e.split(':')[1])]) for e in shs.split(',')],
+                     'nblast_smart full phase: self hits (source facts vs runtime)', case)
+            nb._chunks = (qq, tt)
+        if all(hasattr(x[1], '_chunks') for x in full):
+            jb = []
+            for i in F.order[1]:
+                (f, nb, kwargs, res) = full[i]
+                jb.append(f"{csv(nb._chunks[0])};{csv(nb._chunks[1])};{','.join(tok(v) for v in res)}")
+            model = ctx.ask(f'c09.smartrefine {nqq} {ntt} | {mtok} | {scr_tok} | ' + ' | '.join(jb))
+            ctx.defn(mat_tokens(par), model, 'nblast_smart result vs Lean mask placement of navis\' own job results '
+                     f'(completion orders {F.order})', case)
+        # independent reading of the property: refined cells hold the full-resolution score of their own pair
+        if not (t is q) and 'use_alpha' not in kw:
+            fullm = navis.nblast(q, t, scores=scores, n_cores=1, **kw)
+            m = np.asarray(mask_p.values, dtype=bool)
+            ctx.oracle(np.array_equal(np.asarray(par.values)[m], np.asarray(fullm.values)[m]),
+                       'nblast_smart: a refined cell does not hold the full-resolution score of its own (query, target) pair', case)
+
+
+def case_natural(ctx, case):
+    """No forced partition: pin the timing measurement, run with n_cores 1..16, compare the grid navis chooses with
+    the Lean `chooseNblast` / `chooseSimple` and the result with the serial one."""
+    r = _random.Random(case['seed'])
+    fn, nq, nt, nc, progress, npb = case['fn'], case['nq'], case['nt'], case['n_cores'], case['progress'], case['npb']
+    q = make_dps(r, nq, npts=(8, 14))
+    t = q if fn in ('allbyall', 'smartaba') else make_dps(r, nt, npts=(8, 14))
+    ntt = len(t)
+
+    def call(n_cores, progress):
+        if fn == 'nblast':
+            return navis.nblast(q, t, n_cores=n_cores, progress=progress)
+        if fn == 'allbyall':
+            return navis.nblast_allbyall(q, n_cores=n_cores, progress=progress)
+        return navis.nblast_smart(q, None if fn == 'smartaba' else t, n_cores=n_cores, progress=progress, t=50)
+    try:
+        serial = call(1, False)
+    except Exception as e:
+        ctx.count('serial_error', f'{fn}/natural/{type(e).__name__}')
+        return
+    Tp, Tm = 10 * NF.JOB_SIZE_MULTIPLIER, NF.JOB_MAX_TIME_SECONDS
+    # a measurement that yields `npb` neurons per batch for the progress-bar T; the other T follows from it
+    tpq = Tp / (npb * npb + 0.5)
+    saved = NF.test_single_query_time
+    NF.test_single_query_time = lambda q, t, it=100: tpq
+    try:
+        with Forced(0, 0, _random.Random(case['seed'] + 1), force=False, quiet_progress=True) as F:
+            try:
+                par, err = call(nc, progress), None
+            except Exception as e:
+                par, err = None, e
+    finally:
+        NF.test_single_query_time = saved
+    npbP = max(1, int(np.sqrt(Tp / tpq)))
+    npbM = max(1, int(np.sqrt(Tm / tpq)))
+    ans = ctx.ask(f"c09.choose {'nblast' if fn == 'nblast' else 'simple'} {nc if nc is not None else 'none'} "
+                  f"{1 if progress else 0} {npbP} {npbM} {nq} {ntt}")
+    ctx.count('natural_fn', fn); ctx.count('natural_cores', nc)
+    if err is not None:
+        ctx.oracle(False, f'{fn}(n_cores={nc}, progress={progress}) raises {type(err).__name__}: {str(err)[:100]} '
+                          f'(timing pinned to {npb} neurons per batch) while n_cores=1 succeeds', case)
+        return
+    ctx.oracle(frames_equal(serial, par), f'{fn}(n_cores={nc}, progress={progress}) differs from n_cores=1 '
+               f'(timing pinned to {npb} neurons per batch, completion order {F.order})', case)
+    recs = [x for x in F.records if 'pairs' not in x[2]]
+    if fn.startswith('smart'):
+        recs = recs[:len(recs)]  # pre-phase only
+    if recs:
+        rws = len({tuple(map(int, nb.queries_ix)) for (_, nb, _, _) in recs})
+        cls = len({tuple(map(int, nb.targets_ix)) for (_, nb, _, _) in recs})
+        impl = f'{rws} {cls} 1'
+    else:
+        impl = None
+    if ans == 'none':
+        ctx.corr('partition found', ans, f'{fn}: model says no partition exists', case)
+        return
+    mr, mc, multi = ans.split()
+    ctx.count('natural_grid', f'{mr}x{mc}')
+    if multi == '1':
+        ctx.corr(impl, ans, f'{fn}: grid chosen for n_cores={nc}, progress={progress}, npb={npbP}/{npbM}', case)
+        ctx.oracle(1 <= int(mr) <= nq and 1 <= int(mc) <= ntt, f'{fn}: chosen partition {mr}x{mc} outside 1..len', case)
+    else:
+        ctx.corr(impl, None, f'{fn}: jobs submitted although the model expects the single-job path', case)
 
 
 def case_partition_fn(ctx, case):
@@ -204,6 +444,10 @@ def case_partition_fn(ctx, case):
     if impl != 'none':
         rr, cc = map(int, impl.split())
         ctx.oracle(1 <= rr <= nq and 1 <= cc <= nt, f'find_optimal_partition({N},{nq},{nt}) = {impl} outside 1..len', case)
+        ctx.oracle(N % rr == 0 and rr * cc <= N, f'find_optimal_partition({N},{nq},{nt}) = {impl}: rows do not divide n_cores '
+                                                 f'or more jobs than cores', case)
+    if 'npb' not in case:
+        return
     # find_batch_partition with a pinned timing measurement
     npb = case['npb']
     saved = NF.test_single_query_time
@@ -213,18 +457,28 @@ def case_partition_fn(ctx, case):
             r = NF.find_batch_partition(L(range(nq)), L(range(nt)), T=10, n_cores=nc)
             model = ctx.ask(f"c09.batchpart {npb} {nq} {nt} {nc if nc else 'none'}")
             ctx.corr(f'{r[0]} {r[1]}', model, 'find_batch_partition', case)
+            if nc is None:
+                ctx.oracle(1 <= r[0] <= nq and 1 <= r[1] <= nt, f'find_batch_partition({nq},{nt}) = {r} outside 1..len', case)
     finally:
         NF.test_single_query_time = saved
+    # neurons per batch from a rational timing
+    a, b, T = case.get('ta', 1), case.get('tb', 7), case.get('T', 10)
+    m = (T * b) // a
+    if not ((T * b) % a != 0 and int(np.sqrt(m + 1)) ** 2 == m + 1):
+        impl = max(1, int(np.sqrt(T / (a / b))))
+        ctx.corr(str(impl), ctx.ask(f'c09.npb {T} {a} {b}'), 'neurons_per_batch = max(1, int(sqrt(T / time_per_query)))', case)
 
 
 # ---------------------------------------------------------------------------------------------
-def small_nl(n, rng):
+# mapping over a NeuronList
+# ---------------------------------------------------------------------------------------------
+def small_nl(n, rng, id0=1000):
     out = []
     for i in range(n):
         m = rng.randint(3, 6)
         df = pd.DataFrame({'node_id': np.arange(1, m + 1), 'parent_id': [-1] + list(range(1, m)),
                            'x': np.arange(m, dtype=float), 'y': 0.0, 'z': 0.0, 'radius': 0.01})
-        out.append(navis.TreeNeuron(df, id=1000 + i, name=f'n{i}'))
+        out.append(navis.TreeNeuron(df, id=id0 + i, name=f'n{i}'))
     return navis.NeuronList(out)
 
 
@@ -242,8 +496,7 @@ def _canon_arg(v, n):
 
 
 def case_apply(ctx, case):
-    import random
-    r = random.Random(case['seed'])
+    r = _random.Random(case['seed'])
     n = case['n']
     nl = small_nl(n, r)
     kinds = case['kinds']   # per kwarg: 'scalar' | 'len_n' | 'len_other'
@@ -262,23 +515,18 @@ def case_apply(ctx, case):
         impl = '|'.join(f"{x[0]-1000}(" + ' '.join(['s:' + x[1], 's:' + x[2], 's:' + x[3]]) + ')' for x in (res or []))
     except ValueError:
         impl = 'RAISE'
-    # model: args a,b,c (absent → scalar None)
     margs = []
     for name in ('a', 'b', 'c'):
         v = kwargs.get(name, None)
         margs.append('0:' + _canon_arg(v, n))
     fl = ','.join(str(f - 1000) for f in fails) or '-'
     model = ctx.ask(f"c09.zip {n} {1 if omit else 0} 0 {fl} | " + ' | '.join(margs))
-    # model prints zipped elements as s:<repr>; unzipped lists as m:..; canonicalise impl the same way
-    def canon_model(s):
-        return s
     impl2 = impl
     if impl != 'RAISE':
         parts = []
         for x in (res or []):
             toks = []
             for val in x[1:]:
-                # val is repr of what the function received
                 if val.startswith('['):
                     toks.append('m:' + ','.join(t.strip() for t in val[1:-1].split(',')))
                 else:
@@ -287,7 +535,6 @@ def case_apply(ctx, case):
         impl2 = '|'.join(parts)
     ctx.count('apply_kinds', ','.join(kinds)); ctx.count('apply_outcome', 'raise' if impl == 'RAISE' else 'ok')
     ctx.corr(impl2, model, 'NeuronList.apply: per-neuron arguments / order / failure filtering', case)
-    # oracle (independent of the model): order and matching
     if impl != 'RAISE':
         ids = [x[0] for x in (res or [])]
         exp = [1000 + i for i in range(n) if (1000 + i) not in fails]
@@ -302,10 +549,412 @@ def case_apply(ctx, case):
         ctx.oracle((not omit) and bool(fails), 'apply raised although omit_failures=True or nothing fails', case)
 
 
+# ---- as-written processor: values of every kind, positional + keyword, exclusion lists, per-neuron functions ----
+KINDS = ['int', 'none', 'str_n', 'str_other', 'list_n', 'list_other', 'tuple_n', 'array_n', 'array2d_n', 'array_other',
+         'nl_n', 'dict_keys', 'dict_other', 'dict_size_other', 'set_n', 'set_other', 'gen', 'series_range', 'series_perm',
+         'series_str', 'empty_list']
+
+
+def _enc(v):
+    """token for one element as the probe sees it"""
+    if isinstance(v, (navis.TreeNeuron,)):
+        return f'nrn{int(v.id)}'
+    if isinstance(v, np.ndarray):
+        return 'r' + '_'.join(str(int(x)) for x in v.ravel())
+    if isinstance(v, (bool, np.bool_)):
+        return str(bool(v))
+    if isinstance(v, (int, np.integer)):
+        return str(int(v))
+    if isinstance(v, str):
+        return 'q' + v
+    raise TypeError(f'probe cannot encode {type(v)}')
+
+
+def _show(v):
+    """what a function received, in the driver's value syntax"""
+    if v is None:
+        return 'N'
+    if isinstance(v, navis.NeuronList):
+        return 's:' + ','.join(_enc(x) for x in v)
+    if isinstance(v, pd.Series):
+        return _series_tok(v)
+    if isinstance(v, np.ndarray) and v.ndim == 2:
+        return 's:' + ','.join(_enc(x) for x in v)
+    if isinstance(v, np.ndarray) and v.ndim == 1 and len(v) and int(v.max()) >= 1000:
+        return 'a:' + _enc(v)        # a row of a 2-d array (those hold values >= 1000)
+    if isinstance(v, (list, tuple)) or (isinstance(v, np.ndarray) and v.ndim == 1):
+        return 's:' + ','.join(_enc(x) for x in v)
+    if isinstance(v, dict):
+        ik = [(k, x) for k, x in v.items() if isinstance(k, int)]
+        return 'd:' + ','.join(f'{k}={_enc(x)}' for k, x in ik) + f':{len(v) - len(ik)}'
+    if isinstance(v, (set, frozenset)):
+        return f'x:{len(v)}'
+    if hasattr(v, '__next__'):
+        return 'u'
+    return 'a:' + _enc(v)
+
+
+def _series_tok(s):
+    ik = [(int(k), x) for k, x in s.items() if isinstance(k, (int, np.integer))]
+    return 'd:' + ','.join(f'{k}={_enc(x)}' for k, x in ik) + f':{len(s) - len(ik)}'
+
+
+def make_val(kind, n, rng, nl):
+    """(python value factory, driver token).  A factory because generators are single use."""
+    other = n + 1 if n != 1 else 3
+    ints = lambda k: [rng.randint(0, 99) for _ in range(k)]
+    if kind == 'int':
+        v = rng.randint(0, 99); return (lambda: v), f'a:{v}'
+    if kind == 'none':
+        return (lambda: None), 'N'
+    if kind in ('str_n', 'str_other'):
+        s = ''.join(rng.choice('abcxyz') for _ in range(n if kind == 'str_n' else other)); return (lambda: s), f'a:q{s}'
+    if kind in ('list_n', 'list_other', 'empty_list'):
+        v = ints(n if kind == 'list_n' else (0 if kind == 'empty_list' else other)); return (lambda: v), _show(v)
+    if kind == 'tuple_n':
+        v = tuple(ints(n)); return (lambda: v), _show(v)
+    if kind in ('array_n', 'array_other'):
+        v = np.array(ints(n if kind == 'array_n' else other)); return (lambda: v), _show(v)
+    if kind == 'array2d_n':
+        v = np.array([[1000 + x for x in ints(2)] for _ in range(n)]); return (lambda: v), _show(v)
+    if kind == 'nl_n':
+        v = small_nl(n, rng, id0=5000); return (lambda: v), _show(v)
+    if kind == 'dict_keys':
+        v = {i: rng.randint(0, 99) for i in range(n)}; return (lambda: v), _show(v)
+    if kind == 'dict_other':
+        v = {f'k{i}' if rng.random() < 0.5 else i + rng.choice([0, 0, 50]): rng.randint(0, 99) for i in range(n)}
+        return (lambda: v), _show(v)
+    if kind == 'dict_size_other':
+        v = {i: rng.randint(0, 99) for i in range(other)}; return (lambda: v), _show(v)
+    if kind in ('set_n', 'set_other'):
+        v = set(rng.sample(range(100), n if kind == 'set_n' else other)); return (lambda: v), _show(v)
+    if kind == 'gen':
+        vals = ints(n); return (lambda: (x for x in vals)), 'u'
+    if kind == 'series_range':
+        v = pd.Series(ints(n)); return (lambda: v), _series_tok(v)
+    if kind == 'series_perm':
+        idx = list(range(n)); rng.shuffle(idx); v = pd.Series(ints(n), index=idx); return (lambda: v), _series_tok(v)
+    if kind == 'series_str':
+        v = pd.Series(ints(n), index=[f's{i}' for i in range(n)]); return (lambda: v), _series_tok(v)
+    raise ValueError(kind)
+
+
+class Recorder:
+    """Per-neuron function: records what it received, fails on request, returns what the plan says."""
+
+    def __init__(self, tag, fails, rets, log):
+        self.tag, self.fails, self.rets, self.log = tag, fails, rets, log
+        self.__name__ = f'rec{tag}'
+
+    def __call__(self, x, *args, **kwargs):
+        if isinstance(x, navis.TreeNeuron):
+            first, i = f'n{int(x.id) - 1000}', int(x.id) - 1000
+        else:
+            first, i = 'L' + ','.join(str(int(y.id) - 1000) for y in x), None
+        rec = f"({first}|" + ' '.join(_show(a) for a in args) + '|' + ' '.join(f'{k}~{_show(v)}' for k, v in kwargs.items()) + ')'
+        self.log.append((self.tag, i, rec))
+        if i is not None and i in self.fails:
+            raise ValueError('boom')
+        kind = self.rets[i] if i is not None and i < len(self.rets) else 'o'
+        if kind == 'n':
+            return x
+        if kind == 'l':
+            return navis.NeuronList([x, x])
+        if kind == '0':
+            return None
+        return ('val', i)
+
+
+class FakeProcessingPool:
+    """In-process stand-in for pathos' pool: ordered `imap` honours the chunk size, `imap_unordered` really is
+    unordered (so that swapping one for the other is visible without spawning processes)."""
+    chunks_seen = None
+
+    def __init__(self, n=None):
+        self.n = n
+
+    def __enter__(self):
+        return self
+
+    def __exit__(self, *a):
+        return False
+
+    def imap(self, fn, it, chunksize=1):
+        items = list(it)
+        FakeProcessingPool.chunks_seen = chunksize
+        cs = max(1, int(chunksize))
+        out = []
+        for s in range(0, len(items), cs):
+            out.extend([fn(x) for x in items[s:s + cs]])
+        return iter(out)
+
+    def map(self, fn, it, chunksize=1):
+        return list(self.imap(fn, it, chunksize))
+
+    def imap_unordered(self, fn, it, chunksize=1):
+        FakeProcessingPool.chunks_seen = chunksize
+        items = list(it)
+        res = [fn(x) for x in items]
+        return iter(res[::-1])
+
+
+def case_zipw(ctx, case):
+    r = _random.Random(case['seed'])
+    n = case['n']
+    nl = small_nl(n, r)
+    pos = [make_val(k, n, r, nl) for k in case['pos']]
+    kws = [(f'k{j}', make_val(k, n, r, nl)) for j, k in enumerate(case['kw'])]
+    excl_pos = case['excl_pos']
+    excl_kw = [f'k{j}' for j in case['excl_kw'] if j < len(kws)]
+    fails = set() if 0 in excl_pos else set(case['fails'])   # a call that receives the whole list cannot tell which one it is
+    rets = case['rets']
+    per_fn = case['per_fn']
+    log = []
+    funcs = [Recorder(i if per_fn else 0, fails, rets, log) for i in range(n)] if per_fn else Recorder(0, fails, rets, log)
+    omit, cs = case['omit'], case['cs']
+    saved = CU.ProcessingPool
+    CU.ProcessingPool = FakeProcessingPool
+    try:
+        proc = CU.NeuronProcessor(nl, funcs, parallel=cs > 0, n_cores=case.get('n_cores', 2), chunksize=max(cs, 1),
+                                  progress=False, omit_failures=omit, exclude_zip=list(excl_pos) + excl_kw)
+        try:
+            res = proc(nl, *[f() for f, _ in pos], **{k: f() for k, (f, _) in kws})
+            err = None
+        except BaseException as e:
+            res, err = None, e
+    finally:
+        CU.ProcessingPool = saved
+    ep = ','.join(map(str, excl_pos)) or '-'
+    ek = ','.join(excl_kw) or '-'
+    fl = ','.join(map(str, sorted(fails))) or '-'
+    line = (f"c09.zipw {n} {1 if omit else 0} {cs} {fl} {ep} {ek} | " + ' '.join(t for _, t in pos) + ' | ' +
+            ' '.join(f'{k}~{t}' for k, (_, t) in kws))
+    model = ctx.ask(line)
+    ctx.count('zipw_kinds', ','.join(sorted(set(case['pos'] + case['kw']))) if False else len(case['pos']) + len(case['kw']))
+    for k in case['pos'] + case['kw']:
+        ctx.count('zipw_value_kind', k)
+    ctx.count('zipw_mode', ('parallel' if cs else 'serial') + ('/perfn' if per_fn else ''))
+    if err is not None:
+        ctx.count('zipw_outcome', 'raise:' + type(err).__name__)
+        ctx.corr('RAISE', model, 'NeuronProcessor.__call__: raises', case)
+        # property: an exception is only acceptable if it does not depend on how the work is distributed —
+        # the model (which has no notion of workers) must raise as well, checked by the line above.
+        return
+    ctx.count('zipw_outcome', 'ok')
+    if model == 'RAISE' or model == 'BAD-OP':
+        ctx.corr('returns', model, 'NeuronProcessor.__call__: model raises, navis returns', case)
+        return
+    want_calls = model.split('&') if model else []
+    # what was called, in call order
+    got_calls = [f'{i}{rec}' for (tag, i, rec) in log if i is not None and i not in fails] if 0 not in excl_pos else None
+    if 0 in excl_pos:
+        # every call received the whole list: compare records only
+        got_calls = [f'{k}{rec}' for k, (tag, i, rec) in enumerate(log) if k not in fails]
+    ctx.corr(got_calls, want_calls, 'NeuronProcessor.__call__: what each surviving neuron\'s function received, in order', case)
+    if per_fn and 0 not in excl_pos:
+        ctx.oracle(all(tag == i for (tag, i, rec) in log), 'per-neuron functions: function k was not applied to neuron k', case)
+    # result packing
+    survivors = [i for i in range(n) if i not in fails] if 0 not in excl_pos else [i for i in range(n)]
+    if 0 not in excl_pos:
+        rs = []
+        for i in survivors:
+            kind = rets[i] if i < len(rets) else 'o'
+            rs.append({'n': f'n:{i}', 'l': f'l:{i},{i}', '0': '0', 'o': f'o:{i}'}[kind])
+        fin = ctx.ask('c09.finish ' + ' '.join(rs))
+        if isinstance(res, navis.NeuronList):
+            impl = 'NL:' + ','.join(str(int(x.id) - 1000) for x in res)
+        elif res is None:
+            impl = 'NONE'
+        else:
+            impl = 'LIST:' + ' '.join('0' if x is None else (f'n:{int(x.id) - 1000}' if isinstance(x, navis.TreeNeuron)
+                                      else (f"l:{','.join(str(int(y.id) - 1000) for y in x)}" if isinstance(x, navis.NeuronList)
+                                            else f'o:{x[1]}')) for x in res)
+        ctx.corr(impl, fin, 'NeuronProcessor.__call__: packing of the results (NeuronList / None / list)', case)
+        # property-level reading, independent of the model
+        if isinstance(res, list):
+            ctx.oracle(len(res) == len(survivors), f'{len(res)} results for {len(survivors)} surviving neurons', case)
+        if isinstance(res, navis.NeuronList) and all((rets[i] if i < len(rets) else 'o') == 'n' for i in survivors):
+            ctx.oracle([int(x.id) - 1000 for x in res] == survivors,
+                       f'mapped NeuronList not in list order / wrong neurons removed: {[int(x.id) - 1000 for x in res]} vs {survivors}', case)
+    if cs:
+        ctx.count('chunksize_reached_pool', FakeProcessingPool.chunks_seen == cs)
+
+
+# ---- map_neuronlist -----------------------------------------------------------------------------
+_MAPLOG = []
+
+
+def _mk_probe(can_zip, must_zip, allow_parallel, has_inplace, inplace_default):
+    if has_inplace:
+        @navis.utils.map_neuronlist(desc='probe', can_zip=can_zip, must_zip=must_zip, allow_parallel=allow_parallel)
+        def probe(x, p1=None, p2=None, *, cz=None, mz=None, other=None, fails=(), inplace=inplace_default):
+            """Probe.
+
+            Parameters
+            ----------
+            x :     neuron
+
+            Returns
+            -------
+            neuron
+            """
+            i = int(x.id) - 1000
+            _MAPLOG.append((i, f"(n{i}|{_show(p1)} {_show(p2)}|cz~{_show(cz)} mz~{_show(mz)} other~{_show(other)} inplace~a:{bool(inplace)})"))
+            if i in fails:
+                raise ValueError('boom')
+            return x if inplace else x.copy()
+    else:
+        @navis.utils.map_neuronlist(desc='probe', can_zip=can_zip, must_zip=must_zip, allow_parallel=allow_parallel)
+        def probe(x, p1=None, p2=None, *, cz=None, mz=None, other=None, fails=()):
+            """Probe.
+
+            Parameters
+            ----------
+            x :     neuron
+
+            Returns
+            -------
+            neuron
+            """
+            i = int(x.id) - 1000
+            _MAPLOG.append((i, f"(n{i}|{_show(p1)} {_show(p2)}|cz~{_show(cz)} mz~{_show(mz)} other~{_show(other)})"))
+            if i in fails:
+                raise ValueError('boom')
+            return x.copy()
+    return probe
+
+
+_PROBES = {}
+
+
+def case_mapnl(ctx, case):
+    r = _random.Random(case['seed'])
+    n = case['n']
+    nl = small_nl(n, r)
+    cfg = (tuple(case['can_zip']), tuple(case['must_zip']), case['allow_parallel'], case['has_inplace'], case['inplace_default'])
+    if cfg not in _PROBES:
+        _PROBES[cfg] = _mk_probe(list(cfg[0]), list(cfg[1]), cfg[2], cfg[3], cfg[4])
+    probe = _PROBES[cfg]
+    vals = {k: make_val(kind, n, r, nl) for k, kind in case['kw'].items()}
+    pos = [make_val(kind, n, r, nl) for kind in case['pos']]
+    fails = tuple(case['fails'])
+    parallel, omit, inplace_kw, cs = case['parallel'], case['omit'], case['inplace_kw'], case['cs']
+    kwargs = {k: f() for k, (f, _) in vals.items()}
+    kwargs['fails'] = fails
+    if inplace_kw is not None and case['has_inplace']:
+        kwargs['inplace'] = inplace_kw
+    if omit is not None:
+        kwargs['omit_failures'] = omit
+    if parallel:
+        kwargs['parallel'] = True
+        kwargs['n_cores'] = 2
+    if cs:
+        kwargs['chunksize'] = cs
+    del _MAPLOG[:]
+    before = list(nl.neurons)
+    saved = CU.ProcessingPool
+    CU.ProcessingPool = FakeProcessingPool
+    try:
+        try:
+            res, err = probe(nl, *[f() for f, _ in pos], **kwargs), None
+        except BaseException as e:
+            res, err = None, e
+    finally:
+        CU.ProcessingPool = saved
+    # model: plan, then the per-neuron calls under that plan
+    kw_tokens = [f'{k}~{t}' for k, (_, t) in vals.items()]
+    kw_tokens.append('fails~' + ('s:' + ','.join(map(str, fails)) if fails else 's:'))
+    if 'inplace' in kwargs:
+        kw_tokens.append(f"inplace~a:{bool(kwargs['inplace'])}")
+    if omit is not None:
+        kw_tokens.append(f'omit_failures~a:{bool(omit)}')
+    if parallel:
+        kw_tokens.append('n_cores~a:2')
+    if cs:
+        kw_tokens.append(f'chunksize~a:{cs}')
+    ik = '-' if 'inplace' not in kwargs else ('1' if kwargs['inplace'] else '0')
+    ok_ = '-' if omit is None else ('1' if omit else '0')
+    head = (f"{','.join(cfg[0]) or '-'} {','.join(cfg[1]) or '-'} {int(cfg[2])} {int(cfg[3])} {int(cfg[4])} {n} {len(pos)} "
+            f"{int(parallel)} {ik} {ok_}")
+    plan = ctx.ask(f"c09.mapnl {head} | " + ' '.join(kw_tokens))
+    ctx.count('mapnl_plan', plan.split()[0] + (':' + plan.split()[1] if plan.startswith('ERR') else ''))
+    ctx.count('mapnl_mode', f"par={int(parallel)} omit={ok_} inplace={ik} cs={cs}")
+    if plan.startswith('ERR'):
+        kind = plan.split()[1]
+        want = {'noParallel': ValueError, 'canZipLen': ValueError, 'mustZipLen': ValueError, 'typeError': TypeError}[kind]
+        ctx.corr(type(err).__name__ if err is not None else 'returns', want.__name__,
+                 f'map_neuronlist: validation outcome ({kind})', case)
+        ctx.oracle(list(nl.neurons) == before, 'map_neuronlist: the input list was modified although the call was rejected', case)
+        return
+    if not plan.startswith('OK'):
+        ctx.corr(plan, 'OK …', 'driver: c09.mapnl', case)
+        return
+    fields = dict(x.split('=', 1) for x in plan.split()[1:])
+    epos, ekw = fields['pos'], fields['kw']
+    force, swap, momit = fields['force'] == '1', fields['swap'] == '1', fields['omit'] == '1'
+    passed = [k for k in fields['passed'].split(',') if k]
+    ptoks = []
+    for k in passed:
+        if k == 'inplace':
+            ptoks.append(f"inplace~a:{True if force else bool(kwargs['inplace'])}")
+        elif k == 'fails':
+            ptoks.append('fails~' + ('s:' + ','.join(map(str, fails)) if fails else 's:'))
+        else:
+            ptoks.append(f'{k}~{vals[k][1]}')
+    fl = ','.join(map(str, sorted(fails))) or '-'
+    line = (f"c09.zipw {n} {1 if momit else 0} {cs if parallel else 0} {fl} {epos or '-'} {ekw or '-'} | " +
+            ' '.join(t for _, t in pos) + ' | ' + ' '.join(ptoks))
+    model = ctx.ask(line)
+    if model == 'RAISE':
+        ctx.corr('returns' if err is None else 'RAISE', 'RAISE', 'map_neuronlist → NeuronProcessor: raises', case)
+        return
+    if err is not None:
+        ctx.corr('RAISE ' + type(err).__name__ + ': ' + str(err)[:80], model, 'map_neuronlist → NeuronProcessor: navis raises, model returns', case)
+        return
+    # what each surviving neuron received: re-render the model's generic call in the probe's fixed signature
+    def render(call):
+        i, body = call.split('(', 1)
+        first, args, kws = body[:-1].split('|')
+        args = args.split() + ['N', 'N']
+        kd = dict(x.split('~', 1) for x in kws.split())
+        s = f"(n{i}|{args[0]} {args[1]}|cz~{kd.get('cz', 'N')} mz~{kd.get('mz', 'N')} other~{kd.get('other', 'N')}"
+        if case['has_inplace']:
+            s += f" inplace~{kd.get('inplace', 'a:' + str(bool(case['inplace_default'])))}"
+        return int(i), s + ')'
+    want = [render(c) for c in model.split('&')] if model else []
+    got = [(i, rec) for (i, rec) in _MAPLOG if i not in fails]
+    ctx.corr(got, want, 'map_neuronlist: what each surviving neuron\'s call received (zipped can_zip / must_zip, whole otherwise)', case)
+    # inplace swap and order
+    surv = [i for i in range(n) if i not in fails]
+    ctx.oracle(isinstance(res, navis.NeuronList) and [int(x.id) - 1000 for x in res] == surv,
+               f'map_neuronlist: result not in list order / wrong neurons removed (expected {surv})', case)
+    ctx.corr(res is nl, swap, 'map_neuronlist: inplace ⇒ the input list itself is returned with its neurons swapped', case)
+    if not swap:
+        ctx.oracle(list(nl.neurons) == before, 'map_neuronlist: input list modified although inplace is false', case)
+    # serial twin (property): same per-neuron arguments and same survivors when run without parallel
+    if parallel:
+        kw2 = {k: f() for k, (f, _) in vals.items()}
+        kw2['fails'] = fails
+        if 'inplace' in kwargs:
+            kw2['inplace'] = kwargs['inplace']
+        if omit is not None:
+            kw2['omit_failures'] = omit
+        del _MAPLOG[:]
+        nl2 = small_nl(n, _random.Random(case['seed']))
+        try:
+            res2 = probe(nl2, *[f() for f, _ in pos], **kw2)
+        except BaseException as e:
+            res2 = e
+        strip = lambda rec: rec.split(' inplace~')[0]
+        got2 = [(i, strip(rec)) for (i, rec) in _MAPLOG if i not in fails]
+        ctx.oracle(not isinstance(res2, BaseException) and got2 == [(i, strip(rec)) for i, rec in got]
+                   and [int(x.id) for x in res2] == [int(x.id) for x in res],
+                   'map_neuronlist: parallel=True and the serial run disagree on arguments / survivors / order', case)
+
+
 def case_mapped(ctx, case):
     """map_neuronlist-decorated public function with a per-neuron argument (must_zip) and inplace swap."""
-    import random
-    r = random.Random(case['seed'])
+    r = _random.Random(case['seed'])
     n = case['n']
     nl = small_nl(n, r)
     srcs = [r.randint(1, x.n_nodes) for x in nl]
@@ -322,6 +971,141 @@ def case_mapped(ctx, case):
     ctx.oracle([x.id for x in res] == [x.id for x in nl], 'mapped function: result not in list order', case)
     ctx.oracle(got == want, f'mapped function: per-neuron `source` not matched to its neuron: got {got}, want {want}',
                case, signature='map_neuronlist/must_zip/source-not-zipped')
+    # inplace=True: the same list object, neurons modified
+    nl2 = small_nl(n, _random.Random(case['seed']))
+    res2 = navis.prune_at_depth(nl2, depth, source=srcs, inplace=True)
+    ctx.oracle(res2 is nl2 and [sorted(x.nodes.node_id.tolist()) for x in nl2] == want,
+               'mapped function, inplace=True: the input list is not returned / not modified as the per-neuron calls would', case)
+
+
+def case_mapdf(ctx, case):
+    """`map_neuronlist_df` (segment_analysis): every frame must carry the id of the neuron it was computed from."""
+    r = _random.Random(case['seed'])
+    n = case['n']
+    nl = small_nl(n, r)
+    fails = sorted(set(case['fails']))
+    items = list(nl)
+    for i in fails:
+        dp = make_dps(r, 1, npts=(6, 8))[0]      # segment_analysis rejects Dotprops: this neuron's run fails
+        dp.id = 1000 + i
+        items[i] = dp
+    mixed = navis.NeuronList(items)
+    omit = case['omit']
+    kw = dict(omit_failures=omit)
+    saved = CU.ProcessingPool
+    CU.ProcessingPool = FakeProcessingPool
+    try:
+        if case['parallel']:
+            kw.update(parallel=True, n_cores=2)
+        try:
+            df, err = navis.segment_analysis(mixed, **kw), None
+        except Exception as e:
+            df, err = None, e
+    finally:
+        CU.ProcessingPool = saved
+    model = ctx.ask(f"c09.mapdf {n} {1 if omit else 0} {','.join(map(str, fails)) or '-'}")
+    ctx.count('mapdf', f"fails={len(fails)} omit={int(omit)} par={int(case['parallel'])}")
+    if err is not None:
+        ctx.corr('RAISE', model, 'map_neuronlist_df: raises', case)
+        if omit and len(fails) == n:
+            ctx.count('mapdf_all_fail_raises', type(err).__name__)   # pd.concat([]): nothing is misattributed
+        else:
+            ctx.oracle((not omit) and bool(fails), f'segment_analysis(NeuronList) raised {type(err).__name__} although '
+                       'omit_failures=True or nothing fails', case)
+        return
+    if model == 'RAISE':
+        ctx.corr('returns', model, 'map_neuronlist_df: model raises, navis returns', case)
+        return
+    if 'neuron' not in getattr(df, 'columns', []):
+        ctx.oracle(False, 'segment_analysis(NeuronList): the result carries no neuron id column', case)
+        return
+    single = {int(x.id) - 1000: [float(v) for v in navis.segment_analysis(x).length] for i, x in enumerate(nl) if i not in fails}
+    # which single-neuron result carries which id (frames are recognised by their content: make lengths distinct)
+    got = [(int(i) - 1000, [float(v) for v in g.length]) for i, g in df.groupby('neuron', sort=False)]
+    want_model = []
+    for pr in filter(None, model.split(',')):
+        lab, src = map(int, pr.split(':'))
+        want_model.append((lab, single[src]))
+    # the property itself
+    want = [(i, single[i]) for i in range(n) if i not in fails]
+    surv = [i for i in range(n) if i not in fails]
+    misaligned_class = bool(fails) and any(f < s_ for f in fails for s_ in surv)
+    if got != want:
+        # wrong labels: is it exactly the labelling the code as written (Lean mapDfW) produces?  (A repaired navis that
+        # labels correctly is not held against the as-written model.)
+        ctx.corr(got, want_model, 'map_neuronlist_df: (id written into the frame, frame) pairs vs Lean mapDfW', case)
+    else:
+        ctx.count('mapdf_labels', 'correct')
+    ctx.oracle(got == want, f'segment_analysis(NeuronList, omit_failures=True): frames are labelled with the wrong neuron ids: '
+               f'got ids {[g[0] for g in got]} for the results of neurons {surv}', case,
+               signature='map_neuronlist_df/omit_failures/ids-misaligned' if (misaligned_class and got == want_model) else None)
+
+
+# ---- other distributors -------------------------------------------------------------------------
+def make_syn(rng, n):
+    out = []
+    for i in range(n):
+        m = rng.randint(4, 8)
+        df = pd.DataFrame({'node_id': np.arange(1, m + 1), 'parent_id': [-1] + list(range(1, m)),
+                           'x': np.arange(m, dtype=float), 'y': 0.0, 'z': 0.0, 'radius': 0.01})
+        x = navis.TreeNeuron(df, id=rng.randint(1, 10 ** 6) * 10 + i, units='1 micron')
+        k = rng.randint(3, 7)
+        x.connectors = pd.DataFrame({'connector_id': np.arange(k), 'node_id': [rng.randint(1, m) for _ in range(k)],
+                                     'x': [rng.uniform(0, 6) for _ in range(k)], 'y': [rng.uniform(-1, 1) for _ in range(k)],
+                                     'z': [rng.uniform(-1, 1) for _ in range(k)], 'type': ['pre', 'post'] + [rng.choice(['pre', 'post']) for _ in range(k - 2)]})
+        out.append(x)
+    return navis.NeuronList(out)
+
+
+def case_synblast(ctx, case):
+    r = _random.Random(case['seed'])
+    q, t = make_syn(r, case['nq']), make_syn(r, case['nt'])
+    rows, cols, scores = case['rows'], case['cols'], case['scores']
+    kw = dict(progress=False, by_type=case.get('by_type', False))
+    try:
+        serial = navis.synblast(q, t, scores=scores, n_cores=1, **kw)
+    except Exception as e:
+        ctx.count('serial_error', 'synblast/' + type(e).__name__)
+        return
+    with Forced(rows, cols, _random.Random(case['seed'] + 1), mod=SF) as F:
+        try:
+            par, err = navis.synblast(q, t, scores=scores, n_cores=case.get('n_cores', 4), **kw), None
+        except Exception as e:
+            par, err = None, e
+    ctx.count('fn', 'synblast'); ctx.count('grid', f'{rows}x{cols}')
+    if err is not None:
+        ctx.oracle(False, f'synblast with partition {rows}x{cols} raises {type(err).__name__}: {str(err)[:100]}', case)
+        return
+    ctx.oracle(frames_equal(serial, par), f'synblast differs between serial run and partition {rows}x{cols} '
+               f'with completion order {F.order}', case)
+    recs = F.records
+    if rows * cols > 1 and recs:
+        model = ctx.ask(f"c09.jobs {len(q)} {len(t)} {rows} {cols}")
+        impl = '|'.join(';'.join([csv(nb.queries_ix), csv(nb.targets_ix), csv(kwargs['q_idx']), csv(kwargs['t_idx'])])
+                        for (f, nb, kwargs, res) in recs)
+        ctx.corr(impl, model, 'synblast job grid', case)
+        sb = SF.SynBlaster(normalized=True, by_type=kw['by_type'], smat='auto', progress=False)
+        qsh = [sb.calc_self_hit(n.connectors) for n in q]; tsh = [sb.calc_self_hit(n.connectors) for n in t]
+        for (f, nb, kwargs, res) in recs:
+            check_prog(ctx, case, 'synblast', nb, kwargs, {'query': q, 'target': t}, {'query': qsh, 'target': tsh})
+        blocks = [f"{csv(recs[i][1].queries_ix)};{csv(recs[i][1].targets_ix)};{mat_tokens(recs[i][3])}" for i in F.order[-1]]
+        model = ctx.ask(f'c09.assemble {len(q)} {len(t)} | ' + ' | '.join(blocks))
+        ctx.defn(mat_tokens(par), model, 'synblast: assembled matrix vs Lean placement of navis\' own job blocks', case)
+
+
+def case_nlinit(ctx, case):
+    """NeuronList(..., parallel=True): conversion through a thread pool keeps positions."""
+    r = _random.Random(case['seed'])
+    n = case['n']
+    nl = small_nl(n, r)
+    mixed = [x if r.random() < 0.5 else x.nodes.copy() for x in nl]   # DataFrames are converted, neurons kept
+    ser = navis.NeuronList(list(mixed), parallel=False)
+    par = navis.NeuronList(list(mixed), parallel=True, n_cores=case['n_cores'])
+    key = lambda L: [(type(x).__name__, x.n_nodes) for x in L]
+    ctx.oracle(key(ser) == key(par) and key(par) == [('TreeNeuron', x.n_nodes) for x in nl],
+               'NeuronList(parallel=True): converted neurons do not occupy the positions of their inputs', case)
+    cp = navis.NeuronList(nl, make_copy=True, parallel=True, n_cores=case['n_cores'])
+    ctx.oracle([x.id for x in cp] == [x.id for x in nl], 'NeuronList(make_copy=True, parallel=True): order changed', case)
 
 
 # ---------------------------------------------------------------------------------------------
@@ -329,10 +1113,9 @@ def gen_cases(ctx):
     r = ctx.rng
     # exhaustive small grid of (rows, cols) for tiny lists, then random
     small = [(fn, nq, nt, rows, cols) for fn in ('nblast', 'allbyall') for nq in (1, 2, 3, 5) for nt in (2, 3, 4)
-             for rows in range(1, nq + 1) for cols in range(1, nt + 1)
-             if rows * cols > 1 and (fn == 'nblast' or nq == nt or True)]
+             for rows in range(1, nq + 1) for cols in range(1, nt + 1) if rows * cols > 1]
     r.shuffle(small)
-    nb = ctx.budget(60, 400)
+    nb = ctx.budget(40, 400)
     for (fn, nq, nt, rows, cols) in small[:nb]:
         if fn == 'allbyall':
             nt = nq
@@ -342,7 +1125,7 @@ def gen_cases(ctx):
         yield ('nblast', dict(fn=fn, nq=nq, nt=nt, rows=rows, cols=cols,
                               scores=r.choice(['forward', 'mean', 'min', 'max']) if fn == 'nblast' else 'forward',
                               use_alpha=r.random() < 0.3, normalized=r.random() < 0.8, seed=r.randrange(10 ** 9)))
-    for _ in range(ctx.budget(60, 400)):
+    for _ in range(ctx.budget(40, 400)):
         fn = r.choice(['nblast', 'allbyall'])
         nq, nt = r.randint(2, 9), r.randint(2, 9)
         if fn == 'allbyall':
@@ -350,39 +1133,115 @@ def gen_cases(ctx):
         rows, cols = r.randint(1, nq), r.randint(1, nt)
         if rows * cols == 1:
             cols = 2
-        yield ('nblast', dict(fn=fn, nq=nq, nt=nt, rows=rows, cols=cols,
-                              scores=r.choice(['forward', 'mean', 'min', 'max']) if fn == 'nblast' else 'forward',
-                              use_alpha=r.random() < 0.3, normalized=r.random() < 0.8, seed=r.randrange(10 ** 9)))
-    for _ in range(ctx.budget(4, 40)):
+        c = dict(fn=fn, nq=nq, nt=nt, rows=rows, cols=cols,
+                 scores=r.choice(['forward', 'mean', 'min', 'max']) if fn == 'nblast' else 'forward',
+                 use_alpha=r.random() < 0.3, normalized=r.random() < 0.8, n_cores=r.randint(2, 16), seed=r.randrange(10 ** 9))
+        if fn == 'nblast' and r.random() < 0.15:
+            c['self_target'] = True; c['nt'] = nq; c['cols'] = min(cols, nq) if rows > 1 else max(2, min(cols, nq))
+        yield ('nblast', c)
+    for _ in range(ctx.budget(14, 80)):
         nq, nt = r.randint(2, 7), r.randint(2, 7)
-        yield ('nblast', dict(fn='nblast', nq=nq, nt=nt, rows=r.randint(1, nq), cols=r.randint(2, nt), scores='both',
-                              seed=r.randrange(10 ** 9)))
-    for _ in range(ctx.budget(6, 40)):
-        nq, nt = r.randint(2, 5), r.randint(2, 5)
-        yield ('nblast', dict(fn='smart', nq=nq, nt=nt, rows=r.randint(1, nq), cols=r.randint(1, nt),
-                              scores=r.choice(['forward', 'mean', 'min', 'max']),
-                              criterion=r.choice(['percentile', 'score']), t=r.choice([0, 50, 90]) ,
-                              seed=r.randrange(10 ** 9)))
+        rows, cols = r.randint(1, nq), r.randint(1, nt)
+        if rows * cols == 1:
+            rows = 2
+        yield ('nblast', dict(fn='nblast', nq=nq, nt=nt, rows=rows, cols=cols, scores='both',
+                              normalized=r.random() < 0.8, seed=r.randrange(10 ** 9)))
+    for _ in range(ctx.budget(24, 160)):
+        nq, nt = r.randint(2, 6), r.randint(2, 6)
+        aba = r.random() < 0.25
+        if aba:
+            nt = nq
+        rows, cols = r.randint(1, nq), r.randint(1, nt)
+        if rows * cols == 1:
+            cols = 2
+        crit = r.choice(['percentile', 'percentile', 'score', 'score', 'N'])
+        tt = {'percentile': r.choice([1, 25, 50, 75, 99]), 'score': r.choice([-1, 0, 0, 1]), 'N': r.randint(0, nt)}[crit]
+        c = dict(fn='smart', nq=nq, nt=nt, rows=rows, cols=cols, scores=r.choice(['forward', 'mean', 'min', 'max']),
+                 criterion=crit, t=tt, seed=r.randrange(10 ** 9))
+        if aba:
+            c['self_target'] = True
+        yield ('nblast', c)
+    for _ in range(ctx.budget(40, 400)):
+        fn = r.choice(['nblast', 'nblast', 'allbyall', 'smart', 'smartaba'])
+        nq, nt = r.randint(1, 7), r.randint(1, 7)
+        if fn.startswith('smart'):
+            nq, nt = max(nq, 2), max(nt, 2)
+        yield ('natural', dict(fn=fn, nq=nq, nt=nq if fn in ('allbyall', 'smartaba') else nt,
+                               n_cores=r.randint(1, 16),
+                               progress=r.random() < 0.4, npb=r.choice([1, 1, 2, 3, 5]), seed=r.randrange(10 ** 9)))
+    # partition functions: exhaustive small scope first
+    ex = [(N, nq, nt) for N in range(1, ctx.budget(9, 25)) for nq in range(1, ctx.budget(7, 17)) for nt in range(1, ctx.budget(7, 17))]
+    for (N, nq, nt) in ex:
+        yield ('partfn', dict(N=N, nq=nq, nt=nt))
     for _ in range(ctx.budget(150, 3000)):
-        yield ('partfn', dict(N=r.randint(1, 32), nq=r.randint(1, 40), nt=r.randint(1, 40), npb=r.randint(1, 9), nc=r.randint(1, 16)))
-    for _ in range(ctx.budget(150, 2000)):
+        yield ('partfn', dict(N=r.randint(1, 32), nq=r.randint(1, 40), nt=r.randint(1, 40), npb=r.randint(1, 9), nc=r.randint(1, 16),
+                              T=r.choice([10, 50, 60, 100]), ta=r.randint(1, 9), tb=r.randint(1, 500)))
+    for _ in range(ctx.budget(100, 1500)):
         yield ('apply', dict(n=r.randint(1, 6), kinds=[r.choice(['scalar', 'len_n', 'len_other', 'absent']) for _ in range(3)],
                              pfail=r.choice([0, 0, 0.3, 0.6]), omit=r.random() < 0.6, seed=r.randrange(10 ** 9)))
+    for _ in range(ctx.budget(350, 5000)):
+        n = r.randint(1, 6)
+        npos, nkw = r.randint(0, 3), r.randint(0, 3)
+        yield ('zipw', dict(n=n, pos=[r.choice(KINDS) for _ in range(npos)], kw=[r.choice(KINDS) for _ in range(nkw)],
+                            excl_pos=sorted(set(r.choice([1, 2, 3, 3, 0]) for _ in range(r.choice([0, 0, 1, 2])))),
+                            excl_kw=sorted(set(r.randint(0, 2) for _ in range(r.choice([0, 0, 1, 2])))),
+                            fails=sorted(set(i for i in range(n) if r.random() < r.choice([0, 0, 0.3, 0.7]))),
+                            rets=[r.choice(['n', 'n', 'n', 'l', '0', 'o']) if r.random() < 0.4 else 'n' for _ in range(n)] if r.random() < 0.7
+                            else [r.choice(['0', 'o']) for _ in range(n)],
+                            per_fn=r.random() < 0.3, omit=r.random() < 0.6, cs=r.choice([0, 0, 1, 2, 3, 7]), seed=r.randrange(10 ** 9)))
+    for _ in range(ctx.budget(250, 3000)):
+        n = r.randint(1, 5)
+        ck = lambda: r.choice(['int', 'none', 'str_n', 'list_n', 'list_n', 'list_other', 'array_n', 'tuple_n', 'nl_n', 'set_n', 'gen',
+                               'dict_keys', 'dict_size_other', 'empty_list', 'str_other', 'array_other'])
+        kw = {}
+        for k in ('cz', 'mz', 'other'):
+            if r.random() < 0.65:
+                kw[k] = ck()
+        yield ('mapnl', dict(n=n, can_zip=r.choice([['cz'], ['cz'], [], ['cz', 'other']]), must_zip=r.choice([['mz'], ['mz'], []]),
+                             allow_parallel=r.random() < 0.8, has_inplace=r.random() < 0.7, inplace_default=r.random() < 0.2,
+                             kw=kw, pos=[ck() for _ in range(r.choice([0, 0, 1, 2]))],
+                             fails=sorted(set(i for i in range(n) if r.random() < r.choice([0, 0, 0.4]))),
+                             parallel=r.random() < 0.4, omit=r.choice([None, None, True, False]),
+                             inplace_kw=r.choice([None, None, True, False]), cs=r.choice([0, 0, 1, 2, 5]), seed=r.randrange(10 ** 9)))
     for _ in range(ctx.budget(10, 100)):
         yield ('mapped', dict(n=r.randint(2, 5), depth=r.choice([1, 2, 3]), seed=r.randrange(10 ** 9)))
+    for _ in range(ctx.budget(12, 120)):
+        nq, nt = r.randint(2, 6), r.randint(2, 6)
+        rows, cols = r.randint(1, nq), r.randint(1, nt)
+        if rows * cols == 1:
+            rows = 2
+        yield ('synblast', dict(nq=nq, nt=nt, rows=rows, cols=cols, scores=r.choice(['forward', 'mean', 'min', 'max']),
+                                by_type=r.random() < 0.3, n_cores=r.randint(2, 16), seed=r.randrange(10 ** 9)))
+    for _ in range(ctx.budget(24, 200)):
+        n = r.randint(1, 6)
+        yield ('mapdf', dict(n=n, fails=sorted(set(i for i in range(n) if r.random() < r.choice([0, 0.3, 0.5]))),
+                             omit=r.random() < 0.8, parallel=r.random() < 0.3, seed=r.randrange(10 ** 9)))
+    for _ in range(ctx.budget(10, 60)):
+        yield ('nlinit', dict(n=r.randint(1, 9), n_cores=r.randint(1, 8), seed=r.randrange(10 ** 9)))
 
 
-RUNNERS = {'nblast': case_nblast, 'partfn': case_partition_fn, 'apply': case_apply, 'mapped': case_mapped}
+RUNNERS = {'nblast': case_nblast, 'natural': case_natural, 'partfn': case_partition_fn, 'apply': case_apply,
+           'zipw': case_zipw, 'mapnl': case_mapnl, 'mapdf': case_mapdf, 'mapped': case_mapped, 'synblast': case_synblast, 'nlinit': case_nlinit}
 
 
 def run(ctx):
-    ctx.extra['rule'] = ('nblast cases: (function, |q|, |t|, rows, cols, score mode, seed) with forced partition and seeded '
-                         'completion permutation, non-trivial when rows*cols>1; partition-function cases (N,nq,nt,npb,nc); '
-                         'apply cases (list length, per-argument kind, failing subset); distinct = distinct JSON digest')
+    ctx.extra['rule'] = ('nblast cases: (function, |q|, |t|, rows, cols, score mode incl. both, criterion, seed) with forced '
+                         'partition and seeded completion permutation, non-trivial when rows*cols>1; natural cases: pinned timing, '
+                         'n_cores None/0/1..16, progress on/off; partition-function cases (exhaustive small scope + random); '
+                         'apply / zipw cases (list length, value kind per positional and keyword argument, exclusion lists, '
+                         'failing subset, per-neuron functions, result kinds, chunk size); mapnl cases (decorator configuration × '
+                         'keywords × parallel / omit / inplace); synblast; NeuronList(parallel=True); distinct = distinct JSON digest')
+    facts = ctx.ask('c09.facts')
+    ctx.extra['source_facts'] = facts
+    ctx.notes.append('forced partitions / permuted completion use an in-process executor (module attributes of navis.nbl.nblast_funcs / '
+                     'synblast_funcs are replaced for the duration of a call); real spawn / pathos / multiprocessing pools run in the thorough tier only')
+    ctx.notes.append("nblast_smart(criterion='N') raises for every input under pandas 3 (read-only mask), serially as well: counted under "
+                     "serial_error, not a C09 matter")
     for kind, case in gen_cases(ctx):
         c = dict(case, kind=kind)
         ctx.case(c, nontrivial=True)
-        RUNNERS[kind](ctx, case)
+        ctx.count('stream', kind)
+        RUNNERS[kind](ctx, c)
     if not ctx.quick():
         real_pools(ctx)
 
@@ -391,15 +1250,30 @@ def replay(ctx, rp):
     case = rp['case']
     kind = case.get('kind')
     ctx.case(case)
-    RUNNERS[kind](ctx, {k: v for k, v in case.items() if k != 'kind'})
+    if kind is None:   # replay files written before the case carried its stream name
+        kind = next((k for k, keys in (('mapdf', {'fails', 'omit', 'parallel', 'n'}), ('nblast', {'fn', 'rows', 'cols'}),
+                                       ('natural', {'fn', 'npb', 'progress'}), ('zipw', {'pos', 'kw', 'rets'}),
+                                       ('mapnl', {'can_zip', 'must_zip'}), ('apply', {'kinds', 'pfail'}),
+                                       ('synblast', {'by_type', 'rows'}), ('mapped', {'depth'}), ('nlinit', {'n', 'n_cores'}),
+                                       ('partfn', {'N', 'nq', 'nt'})) if keys <= set(case)), None)
+    if kind in RUNNERS:
+        RUNNERS[kind](ctx, case)
+    elif kind in ('realpool', 'pathos', 'others'):
+        real_pools(ctx)
+
+
+def _ff_probe(x):
+    return float(x.n_nodes)
 
 
 def real_pools(ctx):
-    """Thorough tier: real spawn pools, several core counts; and pathos pools for parallel=True."""
-    import random
-    r = random.Random(ctx.seed)
+    """Thorough tier: real spawn pools, several core counts; pathos pools for parallel=True; other pool users."""
+    r = _random.Random(ctx.seed)
     q = make_dps(r, 5); t = make_dps(r, 6)
     serial = navis.nblast(q, t, n_cores=1, progress=False)
+    both_s = navis.nblast(q, t, n_cores=1, scores='both', progress=False)
+    smart_s = navis.nblast_smart(q, t, n_cores=1, progress=False, t=50)
+    aba_s = navis.nblast_allbyall(q, n_cores=1, progress=False)
     saved = (NF.find_batch_partition, NF.find_optimal_partition)
     try:
         for nc, (rows, cols) in [(2, (2, 1)), (3, (1, 3)), (4, (2, 2)), (8, (2, 4)), (16, (4, 4))]:
@@ -409,12 +1283,22 @@ def real_pools(ctx):
             ctx.case(case)
             par = navis.nblast(q, t, n_cores=nc, progress=False)
             ctx.oracle(frames_equal(serial, par), f'real spawn pool n_cores={nc} partition {rows}x{cols} differs from serial', case)
-            aba_s = navis.nblast_allbyall(q, n_cores=1, progress=False)
+            if nc in (4, 16):
+                par = navis.nblast(q, t, n_cores=nc, scores='both', progress=False)
+                ctx.oracle(frames_equal(both_s, par), f'real spawn pool n_cores={nc} scores=both differs from serial', case)
+                par = navis.nblast_smart(q, t, n_cores=nc, progress=False, t=50)
+                ctx.oracle(frames_equal(smart_s, par), f'real spawn pool n_cores={nc} nblast_smart differs from serial', case)
             NF.find_optimal_partition = lambda *a, **k: (min(rows, 5), min(cols, 5))
             aba_p = navis.nblast_allbyall(q, n_cores=nc, progress=False)
             ctx.oracle(frames_equal(aba_s, aba_p), f'real pool all-by-all n_cores={nc} differs from serial', case)
     finally:
         NF.find_batch_partition, NF.find_optimal_partition = saved
+    # the partition navis picks by itself, real pools
+    for nc in (2, 3, 5, 16):
+        case = dict(kind='realpool', n_cores=nc, natural=True)
+        ctx.case(case)
+        ctx.oracle(frames_equal(serial, navis.nblast(q, t, n_cores=nc, progress=False)), f'nblast n_cores={nc} (own partition) differs', case)
+        ctx.oracle(frames_equal(aba_s, navis.nblast_allbyall(q, n_cores=nc, progress=False)), f'allbyall n_cores={nc} (own partition) differs', case)
     nl = small_nl(9, r)
     ser = [float(v) for v in navis.morpho.cable_length(nl)]
     ser_apply = nl.apply(_probe, b=list(range(9)), omit_failures=True, fails='1003,1007')
@@ -425,3 +1309,34 @@ def real_pools(ctx):
         ctx.oracle(ser == par, f'cable_length(parallel=True, n_cores={nc}, chunksize={cs}) = {par} differs from serial {ser}', case)
         par_apply = nl.apply(_probe, b=list(range(9)), omit_failures=True, fails='1003,1007', parallel=True, n_cores=nc)
         ctx.oracle(ser_apply == par_apply, f'apply(parallel=True, n_cores={nc}) differs from serial', case)
+        ds = navis.downsample_neuron(nl, 2, inplace=False)
+        dp = navis.downsample_neuron(nl, 2, inplace=False, parallel=True, n_cores=nc, chunksize=cs)
+        ctx.oracle([x.id for x in ds] == [x.id for x in dp] and [x.n_nodes for x in ds] == [x.n_nodes for x in dp],
+                   f'downsample_neuron(parallel=True, n_cores={nc}, chunksize={cs}) differs from serial', case)
+    # other users of process pools
+    case = dict(kind='others')
+    ctx.case(case)
+    try:
+        import tempfile, os
+        with tempfile.TemporaryDirectory() as d:
+            for i, x in enumerate(nl):
+                navis.write_swc(x, os.path.join(d, f'{i:02d}_{int(x.id)}.swc'))
+            a = navis.read_swc(d, parallel=False)
+            b = navis.read_swc(d, parallel=3)
+            ctx.oracle([x.name for x in a] == [x.name for x in b] and [x.n_nodes for x in a] == [x.n_nodes for x in b],
+                       'read_swc(parallel=3) returns neurons in a different order than the serial read', case)
+    except Exception as e:
+        ctx.notes.append(f'read_swc parallel stream skipped: {type(e).__name__}: {e}')
+    try:
+        fs = navis.form_factor(nl, parallel=False, num=5, progress=False)
+        fp = navis.form_factor(nl, parallel=True, n_cores=3, num=5, progress=False)
+        ctx.oracle(np.array_equal(fs, fp), 'form_factor(parallel=True) rows differ from the serial run', case)
+    except Exception as e:
+        ctx.notes.append(f'form_factor parallel stream skipped: {type(e).__name__}: {e}')
+    try:
+        adj = pd.DataFrame(np.array([[r.randint(0, 5) for _ in range(6)] for _ in range(6)]), index=list('abcdef'), columns=list('abcdef'))
+        s1 = navis.connectivity_similarity(adj, metric='matching_index', n_cores=1)
+        s2 = navis.connectivity_similarity(adj, metric='matching_index', n_cores=2)
+        ctx.oracle(frames_equal(s1, s2), 'connectivity_similarity(n_cores=2) differs from n_cores=1', case)
+    except Exception as e:
+        ctx.notes.append(f'connectivity_similarity stream skipped: {type(e).__name__}: {e}')
